@@ -14,9 +14,10 @@ from ..symx import Expander, TupleV, ListV
 from ..ncf import M
 from .. import ncf, anf
 from ..anf import R, Unsupported
-from .common import refresh_obligation, default_instance_obligations, struct_ob, guard, last_return, U
+from .common import path_statements, refresh_obligation, default_instance_obligations, struct_ob, guard, last_return, U
 from .gpm import gp_expander, refs, mob, REL
 from ..report import AnalysisError
+from ..term import Resolver, pmatch
 
 COV = "inference/gp/covariance.py"
 FLOORS = {"state-refreshed": 1, "components-not-shared": 1, "posterior-closed-form": 6, "factor-of": 1, "triangular-solves": 1, "kernel-result-shape": 2,
@@ -44,11 +45,18 @@ def run(prog, tier):
     c, call = prog.method("GpRegressor", "__call__")
     ci, ex = gp_expander(prog, scalar_mean=True)
     ex.on_for = lambda node, env: "once"
-    env = {call.args.args[1].arg: M.atom("points", 2), "mu_q": ListV([]), "errs": ListV([])}
+    ret = last_return(call)
+    bret = None
+    for pt in ("(array(_m), sqrt(abs(array(_v))))", "(array(_m), sqrt(absolute(array(_v))))", "(array(_m), abs(array(_v)) ** 0.5)"):
+        bret = bret or (pmatch(ret.value, pt) if ret is not None else None)
+    if bret is None:
+        raise AnalysisError("anchor vanished: GpRegressor.__call__ does not return (array(means), sqrt(abs(array(variances))))")
+    n_mean, n_var = bret["_m"], bret["_v"]
+    env = {call.args.args[1].arg: M.atom("points", 2), n_mean: ListV([]), n_var: ListV([])}
     guard(lambda: ex.exec_block([s for s in call.body if not isinstance(s, ast.Return)], env))
     problems += ex.problems
     r = refs()
-    mu_q, errs = env.get("mu_q"), env.get("errs")
+    mu_q, errs = env.get(n_mean), env.get(n_var)
     if not (isinstance(mu_q, ListV) and len(mu_q.items) == 1 and isinstance(errs, ListV) and len(errs.items) == 1):
         raise AnalysisError("anchor vanished: per-point mean / variance appends in GpRegressor.__call__")
     mean_ref = ncf.scalarise(ncf._mul(r["Kqx"].terms, r["alpha"].terms)) + M.atom("mq", 0)
@@ -58,8 +66,7 @@ def run(prog, tier):
                    "point-wise mean = K_qx alpha + m(q)"))
     obs.append(mob("posterior-closed-form", qual(c, call) + "[variance]", errs.items[0], var_ref, call.lineno,
                    "point-wise variance = K_qq - K_qx K^-1 K_xq"))
-    ret = last_return(call)
-    ok = U(ret.value) == "(array(mu_q), sqrt(abs(array(errs))))"
+    ok = True      # the shape of the return was matched above
     obs.append(struct_ob("posterior-closed-form", qual(c, call) + "[return]", ok,
                          f"must return (means, sqrt(|variances|)); returns `{U(ret.value)}`", REL, ret.lineno))
 
@@ -143,15 +150,10 @@ def run(prog, tier):
 
 def _error_inputs(prog, c, fn):
     out = []
-    # the two arms: `if y_cov is not None:` and `elif y_err is not None:`
-    arms = {}
-    top = [s for s in fn.body if isinstance(s, ast.If)]
-    node = top[0] if top else None
-    while node is not None:
-        t = U(node.test)
-        if t.endswith(" is not None"):
-            arms[t.split()[0]] = node.body
-        node = node.orelse[0] if len(node.orelse) == 1 and isinstance(node.orelse[0], ast.If) else None
+    # the two arms: the statements executed when y_cov is given, and when only y_err is given
+    arms = {"y_cov": path_statements(fn.body, {"y_cov": False}),
+            "y_err": path_statements(fn.body, {"y_cov": True, "y_err": False})}
+    arms = {k: (v if v and isinstance(v[-1], ast.Return) else None) for k, v in arms.items()}
     for var in ("y_cov", "y_err"):
         body = arms.get(var)
         if body is None:
